@@ -148,7 +148,7 @@ _b("assign", [f"{{n}} = {MK}"])
 _b("sess-global", sess="global")
 _b("sess-local", sess="local")
 _b("builtin-len", name="len", sess="builtin")
-_b("builtin-id", name="id", sess="builtin")
+_b("builtin-zip", name="zip", sess="builtin")
 _b("assign-multi", [f"z = {{n}} = {MK}"])
 _b("assign-multi-first", [f"{{n}} = z = {MK}"])
 _b("annassign", [f"{{n}}: int = {MK}"])
@@ -355,13 +355,15 @@ def build(c, del_form=None, explicit=False):
     if spec["embed"] is not None:
         if not (u["expr"] and u["embed"]) or c["w"] != "none" or c["i"] or del_form or explicit:
             raise NotApplicable("embed binder needs a bare embeddable expression use")
+        if c["b"] == "comp-if" and c["u"] == "ifexp":
+            raise NotApplicable("a conditional expression cannot be a comprehension condition")
         use_lines = [s.replace("{U}", "\0").format(n=name).replace("\0", text) for s in spec["embed"]]
         mid = _fmt(MIDS[c["mid"]], name)
         body = mid + use_lines
         marker = use_lines[0]
     else:
-        if needs_expr and not u["expr"]:
-            raise NotApplicable("wrapper needs an expression")
+        if needs_expr and not (u["expr"] and u["embed"]):
+            raise NotApplicable("wrapper needs an embeddable expression")
         if needs_expr and explicit:
             raise NotApplicable("explicit form only at statement level")
         use_lines = wfn([text], text)
